@@ -620,7 +620,7 @@ func main() {
 		r.Finish()
 	}
 	if r.Fork(16) {
-		r.Set("rule", "textbook families; every grammar with up to the production bound over start, x, \"a\", \"b\" with bodies up to the length bound; operator grammars over 2-3 binary and one prefix operator under every ordered partition into levels x every @left/@right assignment x every @left/@right/@none assignment (and missing-level variants); prefix / postfix / dangling-else shapes, whose only conflicts are between different handles, under every partition x assignment; each accepted grammar is driven on every terminal string up to the length bound (and every operator expression up to the operator bound); non-trivial = grammar for which a table is built; distinct by text")
+		r.Set("rule", "textbook families; every grammar with up to the production bound over start, x, \"a\", \"b\" with bodies up to the length bound; operator grammars over 2-3 binary and one prefix operator under every ordered partition into levels x every @left/@right assignment x every @left/@right/@none assignment (and missing-level variants, and a directive naming only unused terminals inserted at every position); prefix / postfix / dangling-else shapes, whose only conflicts are between different handles, under every partition x assignment; each accepted grammar is driven on every terminal string up to the length bound (and every operator expression up to the operator bound); non-trivial = grammar for which a table is built; distinct by text")
 		r.Set("evaluations", r.Get("grammars"))
 		r.Finish()
 	}
@@ -728,6 +728,16 @@ func main() {
 				checkGrammar(r, g, "operators", 4, exprs, func(in []string) ([]string, bool) {
 					return pratt(lv, bin, os.prefix, in)
 				})
+				// the same levels with a directive that names only terminals no rule uses, at every position
+				for at := 0; at <= nl; at++ {
+					var with []opLevel
+					with = append(with, levels[:at]...)
+					with = append(with, opLevel{"right", []string{"unused", "%"}})
+					with = append(with, levels[at:]...)
+					checkGrammar(r, operatorGrammar(os.binary, os.prefix, with), "operators_stale_level", 4, exprs, func(in []string) ([]string, bool) {
+						return pratt(lv, bin, os.prefix, in)
+					})
+				}
 			}
 			if mine() && len(parts) > 1 {
 				var levels []opLevel
